@@ -77,6 +77,12 @@ type ClientInfo struct {
 	Tainted bool
 	// TaintedFiles: remote paths / cache files whose delivery was faulted.
 	TaintedKeys map[string]bool
+	// Delivered: for each lookup (keyed by remote path) the bytes last handed to this client,
+	// from the network or from the cache.
+	Delivered map[string][]byte
+	// FirstConfig is the first content of name/latest this client read.
+	FirstConfig    []byte
+	HasFirstConfig bool
 	// ForgedLeaf: leaf hashes the network substitutes in level-0 tiles served to this client.
 	ForgedLeaf map[int64]ref.Hash
 	// ForgedUni: a self-consistent forged log whose tiles the network serves to this client.
@@ -118,7 +124,7 @@ func (w *World) NewMachine() *Machine {
 // NewClient adds a client process on machine m.
 func (w *World) NewClient(m *Machine, group, height int, u *Universe, size int64) *ClientInfo {
 	c := &ClientInfo{ID: len(w.Clients), Machine: m, Group: group, Height: height, Uni: u, Size: size,
-		occ: map[string]int{}, Ops: map[string]int{}, CacheReads: map[string]int{}, RemoteReads: map[string]int{}, TaintedKeys: map[string]bool{}}
+		occ: map[string]int{}, Ops: map[string]int{}, CacheReads: map[string]int{}, RemoteReads: map[string]int{}, TaintedKeys: map[string]bool{}, Delivered: map[string][]byte{}}
 	w.Clients = append(w.Clients, c)
 	return c
 }
@@ -225,6 +231,9 @@ func (o *ops) ReadRemote(path string) ([]byte, error) {
 		return nil, err
 	}
 	w.noteSeen(c.Machine, data)
+	if class == "net:lookup" {
+		c.Delivered[path] = append([]byte(nil), data...)
+	}
 	w.Res.Logf("c%d ReadRemote %s -> %d bytes %016x", c.ID, path, len(data), choice.MixString(string(data)))
 	return append([]byte(nil), data...), nil
 }
@@ -267,6 +276,9 @@ func (o *ops) ReadCache(file string) ([]byte, error) {
 		return nil, os.ErrNotExist
 	}
 	w.noteSeen(c.Machine, data)
+	if class == "cache:read:lookup" {
+		c.Delivered[strings.TrimPrefix(file, ServerName)] = append([]byte(nil), data...)
+	}
 	w.Res.Logf("c%d ReadCache %s -> %d bytes %016x", c.ID, file, len(data), choice.MixString(string(data)))
 	return append([]byte(nil), data...), nil
 }
@@ -321,6 +333,10 @@ func (o *ops) ReadConfig(file string) ([]byte, error) {
 		return nil, os.ErrNotExist
 	}
 	w.noteSeen(c.Machine, data)
+	if file == ServerName+"/latest" && !c.HasFirstConfig {
+		c.HasFirstConfig = true
+		c.FirstConfig = append([]byte(nil), data...)
+	}
 	w.Res.Logf("c%d ReadConfig %s -> %d bytes %016x", c.ID, file, len(data), choice.MixString(string(data)))
 	return append([]byte(nil), data...), nil
 }
